@@ -54,3 +54,41 @@ fn __h_all_constant(args: &Vec<Expression>) -> (r: bool)
 fn __h_clone_range(range: &DegreeRange) -> (r: DegreeRange)
     ensures r == *range
 { range.clone() }
+
+// ---- statement level (Statement::propagate_degrees)
+pub type TagList = Vec<String>;
+#[verifier::external_body] pub struct AssignOp { _o: Vec<u8> }
+#[verifier::external_body] #[verifier::accept_recursive_types(T)] pub struct NonEmptyVec<T> { _o: Vec<T> }
+pub type Index = usize;
+// which names the environment knows as local variables (degree_meta.rs: var_types.get(var) == Some(Local))
+pub uninterp spec fn denv_local(e: DegreeEnvironment, v: VariableName) -> bool;
+// the names a declaration introduces, and whether their type is signal / component (treated as linear)
+pub uninterp spec fn nev_names(n: NonEmptyVec<VariableName>) -> Set<VariableName>;
+pub open spec fn vt_linear(t: VariableType) -> bool { t is Signal || t is Component || t is AnonymousComponent }
+impl DegreeEnvironment {
+    // `degree_ranges.insert(var.clone(), range.clone()).is_none()`
+    #[verifier::external_body]
+    pub fn set_degree(&mut self, var: &VariableName, range: &DegreeRange) -> (r: bool)
+        ensures
+            denv_map(*final(self)) == denv_map(*old(self)).insert(*var, *range),
+            forall|v: VariableName| denv_local(*final(self), v) == denv_local(*old(self), v),
+    { unimplemented!() }
+    #[verifier::external_body]
+    pub fn is_local(&self, var: &VariableName) -> (r: bool)
+        ensures r == denv_local(*self, *var)
+    { unimplemented!() }
+}
+// The declaration loop `for name in names.iter() { if matches!(var_type, Signal(..) | Component | AnonymousComponent)
+// { result = result || env.set_degree(name, &Linear.into()); } env.set_type(name, var_type); }` — NonEmptyVec has a
+// custom iterator that Verus's for-loops do not know; the loop is moved verbatim into this helper (T3). Contract: entries
+// of other names are kept; a declared name either keeps its entry or (signals, components) gets the range [Linear, Linear].
+#[verifier::external_body]
+fn __h_declare_names(names: &NonEmptyVec<VariableName>, var_type: &VariableType, env: &mut DegreeEnvironment, result: &mut bool)
+    ensures
+        forall|v: VariableName| #![trigger denv_map(*final(env)).dom().contains(v)] !nev_names(*names).contains(v) ==> denv_map(*final(env)).dom().contains(v) == denv_map(*old(env)).dom().contains(v),
+        forall|v: VariableName| #![trigger denv_map(*final(env))[v]] !nev_names(*names).contains(v) && denv_map(*old(env)).dom().contains(v) ==> denv_map(*final(env))[v] == denv_map(*old(env))[v],
+        forall|v: VariableName| #![trigger denv_map(*final(env))[v]] nev_names(*names).contains(v) && denv_map(*final(env)).dom().contains(v) ==>
+            (denv_map(*old(env)).dom().contains(v) && denv_map(*final(env))[v] == denv_map(*old(env))[v]) || hi(denv_map(*final(env))[v]) >= 1,
+        !vt_linear(*var_type) ==> denv_map(*final(env)) == denv_map(*old(env)),
+        forall|v: VariableName| #![trigger denv_local(*final(env), v)] !nev_names(*names).contains(v) ==> denv_local(*final(env), v) == denv_local(*old(env), v),
+{ unimplemented!() }
